@@ -127,11 +127,11 @@ def check_nearest(idx: Index, rep: Report) -> None:
                 if h is None:
                     continue
                 hp = h.raw_node.args.args[0].arg
-                hw = [w_ for w_ in walk_local(h.raw_node) if isinstance(w_, ast.While)]
-                ys = [y_ for y_ in ast.walk(h.raw_node) if isinstance(y_, ast.Yield)]
+                hw = [w_ for w_ in walk_local(h.as_raw().node) if isinstance(w_, ast.While)]
+                ys = [y_ for y_ in ast.walk(h.as_raw().node) if isinstance(y_, ast.Yield)]
                 if len(hw) == 1 and len(ys) == 1 and isinstance(ys[0].value, ast.Name):
                     cv = ys[0].value.id
-                    inits = [unparse(s_.value) for s_ in h.raw_node.body if isinstance(s_, (ast.Assign, ast.AnnAssign)) and unparse(s_.targets[0] if isinstance(s_, ast.Assign) else s_.target) == cv]
+                    inits = [unparse(s_.value) for s_ in h.as_raw().node.body if isinstance(s_, (ast.Assign, ast.AnnAssign)) and unparse(s_.targets[0] if isinstance(s_, ast.Assign) else s_.target) == cv]
                     advs = [unparse(s_.value) for s_ in walk_local(hw[0]) if isinstance(s_, ast.Assign) and unparse(s_.targets[0]) == cv]
                     first_is_yield = isinstance(hw[0].body[0], ast.Expr) and hw[0].body[0].value is ys[0]
                     test_ok = unparse(hw[0].test) in (f"{cv} is not None", cv)
@@ -325,11 +325,11 @@ def check_symbol_predicate(idx: Index, rep: Report) -> None:
     sites = [(TR, "SymbolTable.lookup_symbol"), (UT, "_lookup_symbol_in_direct_children"), (UT, "SymbolTable.__init__")]
     for mod, q in sites:
         f = idx.func(mod, q)
-        t = unparse(f.raw_node)
+        t = unparse(f.as_raw().node)
         via_iface = bool(re.search(r"get_trait\(SymbolOpInterface\)|has_trait\(SymbolOpInterface\)|get_name_if_symbol\(|get_sym_attr_name\(", t))
-        raw = [n for n in ast.walk(f.raw_node) if (isinstance(n, ast.Call) and call_attr(n) in ("get_attr_or_prop", "get") and n.args and isinstance(n.args[0], ast.Constant) and n.args[0].value == "sym_name") or (isinstance(n, ast.Subscript) and isinstance(n.slice, ast.Constant) and n.slice.value == "sym_name")]
+        raw = [n for n in ast.walk(f.as_raw().node) if (isinstance(n, ast.Call) and call_attr(n) in ("get_attr_or_prop", "get") and n.args and isinstance(n.args[0], ast.Constant) and n.args[0].value == "sym_name") or (isinstance(n, ast.Subscript) and isinstance(n.slice, ast.Constant) and n.slice.value == "sym_name")]
         # `verify` style duplicate checks read the raw attribute; only comparisons against the looked-up name count
-        raw_match = [n for n in raw if any(isinstance(c_, ast.Compare) and any(y is n for y in ast.walk(c_)) for c_ in ast.walk(f.raw_node))]
+        raw_match = [n for n in raw if any(isinstance(c_, ast.Compare) and any(y is n for y in ast.walk(c_)) for c_ in ast.walk(f.as_raw().node))]
         if raw_match and not via_iface:
             r.fail(f.fq, Finding("C29.R4", f.fq, "raw-sym-name-match", f"`{unparse(raw_match[0])}` is compared with the looked-up name without the SymbolOpInterface test: an operation that only carries a `sym_name` attribute but is not a symbol is returned, and this resolver disagrees with the other two on the same module", f"{f.module.relpath}:{raw_match[0].lineno}"))
         elif via_iface:
